@@ -224,7 +224,8 @@ impl LuaDeclarationTree {
                 false
             }
             LuaScopeKind::LocalOrAssignStat => {
-                for child in scope.get_children() {
+                // `local a, a`: the last declaration of a name is the visible one
+                for child in scope.get_children().iter().rev() {
                     if let ScopeOrDeclId::Decl(decl_id) = child
                         && f(decl_id.into())
                     {
